@@ -91,6 +91,9 @@ def run(tier, replay=None):
                         if meth not in (rr["other"] or []):
                             run_.diverge(tag + " request-bypasses-chain method=%s" % meth,
                                          "a %s request was answered without entering the outermost middleware (methods the chain saw: %s)" % (meth, rr["other"]), rp)
+                if sc["chain"] and '"result"' not in (rr.get("alias") or ""):
+                    run_.diverge(tag + " method-rewrite-not-dispatched", "the outermost middleware rewrote the method verif/alias to tools/call and called next; the answer was %s"
+                                 % (rr.get("alias") or "")[:300], rp)
                 for q in rr["reqs"]:
                     rp2 = dict(rp, observed=q)
                     if q["events"] != events:
